@@ -89,7 +89,11 @@ class Encrypt(Machine):
         }
         nk = s.choice([1, 1, 2, 3])
         nf = s.choice([1, 2, 4])
-        keys = [f"k{i}" for i in range(nk)]
+        # key names are legal file-name stems; in some runs they contain dots ("fwenc.gen2", "k0.bin") and another
+        # key sits under the name a suffix-replacing lookup would open instead ("fwenc.bin", "k0.bin")
+        kstyle = s.choice(["plain", "plain", "dotted", "mixed"])
+        keys = [f"k{i}" if kstyle == "plain" or (kstyle == "mixed" and s.chance(0.5))
+                else s.choice([f"fwenc.gen{i}", f"a.b.k{i}", f"k{i}.bin", f"k{i}.v2"]) for i in range(nk)]
         fws = [[f"fw{i}", s.choice(SIZES)] for i in range(nf)]
         dirs = ["dA"] + (["dB"] if s.chance(0.4) else [])
         ops = [{"kind": "setup", "i": 0, "keys": keys, "fws": fws, "dirs": dirs}]
@@ -185,6 +189,12 @@ class Encrypt(Machine):
                 # a second product's key directory: the same key *names*, other key bytes
                 model["keys"]["2:" + name] = world.blob(host.seed, "aeskey2-" + name, 32)
                 host.write(f"keys2/{name}.bin", model["keys"]["2:" + name])
+            for name in op["keys"]:
+                decoy = name.rsplit(".", 1)[0] + ".bin"
+                if "." in name and decoy not in [k + ".bin" for k in op["keys"]]:
+                    for kd in ("keys", "keys2"):
+                        host.write(f"{kd}/{decoy}", world.blob(host.seed, f"decoy-{kd}-{name}", 32))
+                    model["_extra"]["dotted_key_names"] = model["_extra"].get("dotted_key_names", 0) + 1
             for name, size in op["fws"]:
                 model["fws"][name] = world.blob(host.seed, name, size)
                 host.write(f"{name}.bin", model["fws"][name])
